@@ -4,7 +4,7 @@ BASE_NOTE = ("Trusted: Coq 8.16.1 kernel (vm_compute for witnesses/examples only
              "the correspondence harness (generators, exact-rational canonicalisation, observation mapping); CPython 3.12/numpy "
              "float64 semantics on the exact (dyadic) input families. The theorems are about the Gallina model; the tie to /repo/src "
              "is the correspondence run on every check (sampled, not proved). ")
-SOURCE_COMMITS = ["bc49a1c", "e3a7f92"]   # "fix:" commits only (no guarded hooks exist)
+SOURCE_COMMITS = ["bc49a1c", "e3a7f92", "9ed7728", "007ee91", "c29e4c1", "17a47e5", "867807e", "949de5f", "5cc174a", "d64e197"]   # "fix:" commits only (no guarded hooks exist)
 NOTES = ("Every check: (1) rebuilds the Coq development incrementally and re-checks coq/Props/<id>.v (grep gate for Admitted/Axiom/...); "
          "(2) runs physt from /repo/src and the extracted model on the same seeded cases; (3) applies the extracted check_<id> to the "
          "implementation's observation. VIOLATION lines carry a replay file; 'no-failing-input-found' is appended when only the "
@@ -29,6 +29,25 @@ CLAIMED = {
          "extracted checker is applied to physt's real output on every generated case and the model's output is diffed against it."),
    note=BASE_NOTE + "Modelled, not verified: numpy argsort/searchsorted/sum/allclose (documented meaning, compared on every run); "
         "binning factories used for int/method-name bins (bins are read back; their correctness is C07)."),
+ "C02": dict(
+   technique="Coq proof of refinement (histogramdd over masked edges = per-axis bin membership) + extracted-model correspondence",
+   text=("C02_holds is proved for every case (any dimension, any rows, weights, gapped / right-inclusive / right-exclusive axes), "
+         "closed under the global context: the checker stating the property (cell = weight of rows whose every coordinate lies in "
+         "that axis' bin, last bin closed iff includes_right_edge; squared errors; missed = input weight - in-cell weight; NaN rows "
+         "dropped with weights; refusal exactly for invalid input) accepts calculate_nd_frequencies as coded "
+         "(to_numpy_bins_with_mask + numpy.histogramdd index rule + inf bin + mask selection). The extracted checker runs on "
+         "physt's real output for h / h2 / h3 on every generated case."),
+   note=BASE_NOTE + "Modelled, not verified: numpy.histogramdd (index rule transcribed from numpy 2.5's source), np.ix_ selection; "
+        "per-axis binning factories (bins are read from the objects handed in)."),
+ "C03": dict(
+   technique="Coq proof by induction over fill/fill_n histories (+ permutation/chunk invariance) + extracted-model correspondence",
+   text=("Theorems for histories of any length: each call of the code equals the specification's call (find_bin = bin that "
+         "contains the value, fill returns it, fill_n = batch), hence the checker accepts every step (C03_holds_partial, guard: "
+         "single fills enter finite values); contents = initial + sum of content-independent per-call vectors, so any permutation "
+         "of the calls and any split of a batch gives the same contents/errors2. C03_refuted (vm_compute witness fill(NaN)) is the "
+         "recorded finding F19. Every generated history is executed on physt step by step (returned index, find_bin before the "
+         "call, state untouched by find_bin, contents, errors2, missed) and compared with one-shot construction."),
+   note=BASE_NOTE + "Modelled, not verified: dtype coercion inside fill/fill_n (C13), statistics update (C14), adaptive growth (C04)."),
  "C10": dict(
    technique="Coq proof (induction over arbitrary frequency lists / N-d arrays) + extracted-model correspondence",
    text=("Theorems (all sizes, all dimensions, closed under the global context): the min_frequency loop always yields a gap-free "
